@@ -1,9 +1,9 @@
 """C11 — deferred traits mirror their target: delegation and prototyping."""
 import gc
 
-from traits.api import (DelegatesTo, HasStrictTraits, HasTraits, Instance,
-                        Int, List, Property, PrototypedFrom, TraitError,
-                        cached_property)
+from traits.api import (DelegatesTo, Dict, Event, HasStrictTraits, HasTraits,
+                        Instance, Int, List, Property, PrototypedFrom, Set,
+                        Str, TraitError, cached_property)
 
 LEVEL = "model_checking"
 RULE = ("every history up to the depth bound over: assign through the "
@@ -124,6 +124,355 @@ class Car(HasTraits):
     torque = DelegatesTo("engine", listenable=False)
 
 
+class CParent(HasTraits):
+    """container-valued and event targets"""
+    nums = List(Int)
+    dd = Dict(Str, Int)
+    ss = Set(Int)
+    ev = Event(Int)
+
+
+class CChild(HasTraits):
+    parent = Instance(CParent)
+    nums = DelegatesTo("parent")
+    dd = DelegatesTo("parent")
+    ss = DelegatesTo("parent")
+    ev = DelegatesTo("parent")
+
+
+class CPChild(HasTraits):
+    parent = Instance(CParent)
+    nums = PrototypedFrom("parent")
+    dd = PrototypedFrom("parent")
+    ss = PrototypedFrom("parent")
+    ev = PrototypedFrom("parent")
+
+
+CONT = ("nums", "dd", "ss")
+
+
+def c_fresh(attr, n):
+    """a new whole value for a container attribute"""
+    return {"nums": [n], "dd": {"k%d" % n: n}, "ss": {n}}[attr]
+
+
+def c_mutate(container, attr, n):
+    if attr == "nums":
+        container.append(n)
+    elif attr == "dd":
+        container["k%d" % n] = n
+    else:
+        container.add(n)
+
+
+def c_mutate_bad(container, attr):
+    if attr == "nums":
+        container.append("bad")
+    elif attr == "dd":
+        container["kb"] = "bad"
+    else:
+        container.add("bad")
+
+
+def c_plain(v):
+    if isinstance(v, list):
+        return list(v)
+    if isinstance(v, dict):
+        return dict(v)
+    return set(v)
+
+
+class ContWorld:
+    """deferring onto List / Dict / Set / Event(Int) targets: in-place
+    mutation on either side, whole-value assignment, validated events"""
+
+    def __init__(self, kind):
+        self.kind = kind
+        self.parents = [CParent(nums=[1], dd={"a": 1}, ss={1}), CParent()]
+        self.P = [{"nums": [1], "dd": {"a": 1}, "ss": {1}},
+                  {"nums": [], "dd": {}, "ss": set()}]
+        self.L = {}
+        self.cur = 0
+        self.n = 10
+        self.ev_local = False
+        cls = CChild if kind == "cont-delegate" else CPChild
+        self.c = c = cls(parent=self.parents[0])
+        self.calls = calls = []
+        import weakref
+        cref = weakref.ref(c)
+
+        def mk(name, mech):
+            if mech == "otc":
+                def h(new):
+                    note(name, mech, new)
+            else:
+                def h(ev):
+                    note(name, mech, ev.new)
+            return h
+
+        def note(name, mech, new):
+            if name == "ev":
+                calls.append((name, mech, new if isinstance(new, int)
+                              else type(new).__name__))
+                return
+            cur = getattr(cref(), name)
+            try:
+                same = (type(new) is type(cur)) and c_plain(new) == \
+                    c_plain(cur)
+            except Exception:
+                same = False
+            calls.append((name, mech, "value" if same
+                          else type(new).__name__))
+
+        def items(name):
+            def h(new):
+                calls.append((name + "_items", "otc", type(new).__name__))
+            return h
+        for name in CONT + ("ev",):
+            c.on_trait_change(mk(name, "otc"), name)
+            c.observe(mk(name, "obs"), name)
+            if name != "ev":
+                c.on_trait_change(items(name), name + "_items")
+
+    def clear(self):
+        self.calls.clear()
+
+    def fresh(self):
+        self.n += 1
+        return self.n
+
+
+def cont_menu(kind):
+    evs = []
+    for a in CONT:
+        for i in (0, 1):
+            evs.append(("mut_parent", i, a))
+            evs.append(("set_parent", i, a))
+        evs += [("mut_child", a), ("mut_child_bad", a), ("set_child", a, 5),
+                ("set_child", a, "bad")]
+        if kind == "cont-proto":
+            evs.append(("del_child", a))
+    evs += [("fire_child", 5), ("fire_child", "bad"), ("fire_parent", 0),
+            ("fire_parent", 1), ("swap", 0), ("swap", 1)]
+    return evs
+
+
+def cont_step(ctx, w, ev, hist):
+    good = True
+
+    def bad(kind, msg):
+        nonlocal good
+        good = False
+        ctx.violation("C11:%s:%s:%s" % (kind, w.kind, ":".join(
+            str(x) for x in ev[:1] + ev[-1:])), msg, kind=w.kind,
+            history=hist)
+    w.clear()
+    ctx.tr()
+    k, c = ev[0], w.c
+    proto = w.kind == "cont-proto"
+    linked = lambda a: a not in w.L
+    name_calls = lambda a: [x for x in w.calls if x[0] == a]
+    if k == "mut_parent":
+        i, a = ev[1], ev[2]
+        n = w.fresh()
+        c_mutate(getattr(w.parents[i], a), a, n)
+        c_mutate(w.P[i][a], a, n)
+        if not (i == w.cur and linked(a)):
+            got = [x for x in w.calls if x[1] == "otc"]
+            if got:
+                bad("forwarded-unlinked:%s" % a, "the %s of %s was mutated "
+                    "in place and handlers of the deferring object were "
+                    "called: %r" % (a, "another delegate" if i != w.cur else
+                                    "the delegate after the link was broken",
+                                    got))
+            else:
+                ctx.outcome("unlinked-silent" if i == w.cur
+                            else "former-delegate-silent")
+    elif k == "set_parent":
+        i, a = ev[1], ev[2]
+        n = w.fresh()
+        setattr(w.parents[i], a, c_fresh(a, n))
+        w.P[i][a] = c_fresh(a, n)
+        got = name_calls(a)
+        if i == w.cur and linked(a):
+            ctx.outcome("linked-notified")
+            for mech in ("otc", "obs"):
+                if not [x for x in got if x[1] == mech]:
+                    bad("not-forwarded:%s:%s" % (a, mech), "the delegate's "
+                        "%s was replaced but the %s handler of the deferring "
+                        "attribute was not called" % (a, mech))
+        elif got:
+            bad("forwarded-unlinked:%s" % a, "the %s of %s was replaced and "
+                "handlers of the deferring attribute were called: %r" % (
+                    a, "another delegate" if i != w.cur else "the delegate "
+                    "after the link was broken", got))
+    elif k in ("mut_child", "mut_child_bad"):
+        a = ev[1]
+        cont = getattr(c, a)
+        if linked(a) and cont is not getattr(w.parents[w.cur], a):
+            bad("not-the-delegates-container:%s" % a, "while linked the "
+                "deferring attribute does not read as the delegate's own "
+                "container object")
+        try:
+            if k == "mut_child":
+                n = w.fresh()
+                c_mutate(cont, a, n)
+                c_mutate(w.L[a] if a in w.L else w.P[w.cur][a], a, n)
+                ctx.nontriv((w.kind, k, a, repr(cont_canon(w))))
+            else:
+                c_mutate_bad(cont, a)
+                bad("invalid-item-accepted:%s" % a, "an invalid item was "
+                    "accepted into the container read through the deferring "
+                    "attribute")
+        except TraitError as e:
+            if k == "mut_child":
+                bad("valid-item-rejected:%s" % a, "valid item rejected: %s"
+                    % e)
+            else:
+                ctx.outcome("invalid-rejected")
+                if w.calls:
+                    bad("refused-notified:%s" % a, "a refused mutation "
+                        "called %r" % (w.calls,))
+    elif k == "set_child":
+        a, v = ev[1], ev[2]
+        n = w.fresh()
+        val = c_fresh(a, n) if v != "bad" else \
+            {"nums": ["bad"], "dd": {"kb": "bad"}, "ss": {"bad"}}[a]
+        try:
+            setattr(c, a, val)
+            exc = None
+        except TraitError as e:
+            exc = e
+        except Exception as e:
+            bad("raises", "assignment raised %r" % (e,))
+            return good
+        if v == "bad":
+            ctx.outcome("invalid-rejected")
+            if exc is None:
+                bad("invalid-accepted:%s" % a, "an invalid container value "
+                    "was accepted through the deferring attribute")
+                return good
+            if w.calls:
+                bad("refused-notified:%s" % a, "a refused assignment called "
+                    "%r" % (w.calls,))
+        else:
+            if exc is not None:
+                bad("valid-rejected:%s" % a, "valid value rejected: %s" % exc)
+                return good
+            if proto:
+                w.L[a] = c_fresh(a, n)
+                ctx.outcome("prototype-local-write")
+                if getattr(c, a) is getattr(w.parents[w.cur], a):
+                    bad("local-aliases-delegate:%s" % a, "after a local "
+                        "assignment the attribute still reads as the "
+                        "prototype's container")
+            else:
+                w.P[w.cur][a] = c_fresh(a, n)
+                ctx.outcome("delegated-write")
+                if a in c.__dict__:
+                    bad("stored-locally:%s" % a, "DelegatesTo write stored a "
+                        "local value")
+            for mech in ("otc", "obs"):
+                if not [x for x in name_calls(a) if x[1] == mech]:
+                    bad("write-not-notified:%s:%s" % (a, mech), "assigning "
+                        "through the deferring attribute did not call its %s "
+                        "handler" % mech)
+            ctx.nontriv((w.kind, k, a, repr(cont_canon(w))))
+    elif k == "del_child":
+        a = ev[1]
+        try:
+            delattr(c, a)
+        except Exception as e:
+            bad("del-raises", "deleting the local value raised %r" % (e,))
+            return good
+        if a in w.L:
+            ctx.outcome("link-restored")
+        w.L.pop(a, None)
+    elif k == "fire_child":
+        v = ev[1]
+        try:
+            c.ev = v
+            exc = None
+        except TraitError as e:
+            exc = e
+        except Exception as e:
+            bad("raises", "firing the event raised %r" % (e,))
+            return good
+        if v == "bad":
+            ctx.outcome("invalid-rejected")
+            if exc is None:
+                bad("invalid-accepted:ev", "an invalid payload was accepted "
+                    "by an Event(Int) reached through the deferring "
+                    "attribute (handlers saw %r)" % (w.calls,))
+            elif w.calls:
+                bad("refused-notified:ev", "a refused payload called %r"
+                    % (w.calls,))
+        elif exc is not None:
+            bad("valid-rejected:ev", "valid payload rejected: %s" % exc)
+        else:
+            for mech in ("otc", "obs"):
+                got = [x[2] for x in w.calls if x[:2] == ("ev", mech)]
+                if got != [v]:
+                    bad("event-count:%s" % mech, "firing the event through "
+                        "the deferring attribute called its %s handler with "
+                        "%r, expected once with %r" % (mech, got, v))
+            ctx.nontriv((w.kind, k, v))
+            if proto:
+                # a local assignment: from here on the statement neither
+                # requires nor forbids forwarding of the prototype's event
+                # (an event stores nothing that could be deleted again)
+                w.ev_local = True
+    elif k == "fire_parent":
+        i = ev[1]
+        w.parents[i].ev = 7
+        got = [x for x in w.calls if x[0] == "ev"]
+        if w.ev_local:
+            pass
+        elif i == w.cur:
+            ctx.outcome("linked-notified")
+            for mech in ("otc", "obs"):
+                g = [x[2] for x in got if x[1] == mech]
+                if g != [7]:
+                    bad("event-not-forwarded:%s" % mech, "the delegate's "
+                        "event fired with 7; the %s handler of the deferring "
+                        "attribute got %r" % (mech, g))
+        elif got:
+            bad("forwarded-unlinked:ev", "another delegate's event reached "
+                "the deferring attribute's handlers: %r" % (got,))
+        else:
+            ctx.outcome("former-delegate-silent")
+    elif k == "swap":
+        c.parent = w.parents[ev[1]]
+        w.cur = ev[1]
+    # ---- whatever happened: name handlers only ever see values
+    for x in w.calls:
+        if x[0] in CONT and x[2] != "value":
+            bad("handler-got-non-value:%s:%s" % (x[0], x[1]), "the %s "
+                "handler of the deferring attribute %s was called with a %s, "
+                "not with the attribute's new value" % (x[1], x[0], x[2]))
+    # ---- read-back
+    for i, p in enumerate(w.parents):
+        for a in CONT:
+            if c_plain(getattr(p, a)) != w.P[i][a]:
+                bad("delegate-value:%s" % a, "delegate %d has %s = %r, model "
+                    "%r" % (i, a, getattr(p, a), w.P[i][a]))
+    for a in CONT:
+        want = w.L[a] if a in w.L else w.P[w.cur][a]
+        if c_plain(getattr(c, a)) != want:
+            bad("read:%s" % a, "%s reads %r, model %r" % (
+                a, getattr(c, a), want))
+    return good
+
+
+def cont_canon(w):
+    return (w.kind, [sorted((a, repr(sorted(v.items()) if isinstance(v, dict)
+                                      else sorted(v))) for a, v in p.items())
+                     for p in w.P],
+            sorted((a, repr(sorted(v.items()) if isinstance(v, dict)
+                            else sorted(v))) for a, v in w.L.items()), w.cur,
+            w.ev_local)
+
+
 ALL_ATTRS = {"x": "x", "xx": "y", "q": "pre_q", "r": "pp_r", "t": "_t",
              "nl": "nl"}
 #: listenable=False: values mirror the target, forwarding of notifications
@@ -211,6 +560,8 @@ class World:
 
 def menu(kind):
     evs = []
+    if kind.startswith("cont-"):
+        return cont_menu(kind)
     if kind.startswith("chain"):
         for v in VALS:
             evs += [("set_top", v), ("set_mid", v)]
@@ -486,6 +837,17 @@ def strict_target(ctx):
 
 
 def run_history(ctx, kind, hist):
+    if kind.startswith("cont-"):
+        w = ContWorld(kind)
+        for ev in hist:
+            if ev[0] == "swap" and w.cur == ev[1]:
+                return None, None
+            if not cont_step(ctx, w, ev, hist):
+                return False, None
+        refused = bool(hist) and any("bad" in str(x) for x in hist[-1])
+        # the counter of fresh values is part of the state's name only
+        # through the contents it produced
+        return True, (cont_canon(w), refused)
     w = World(kind)
     for i, ev in enumerate(hist):
         if not enabled(w, ev):
@@ -502,7 +864,7 @@ def run_history(ctx, kind, hist):
 def shards(tier):
     out = []
     for kind in ("delegate", "proto", "proto2", "proto2late", "proto2prop",
-                 "chain", "chainprop"):
+                 "chain", "chainprop", "cont-delegate", "cont-proto"):
         for i in range(len(menu(kind))):
             out.append({"kind": kind, "first": i})
     return out
